@@ -192,3 +192,7 @@ def check(ctx, run):  # noqa: F811
     _check_main(ctx, run)
     from .c13 import forward_start_index_hazard
     forward_start_index_hazard(ctx, run, "C12.R5")
+    from ..precision import closed_form_precision_rule
+    run.require("C12.R6", 5)
+    closed_form_precision_rule(ctx, run, "C12.R6", ["european_payoff", "lookback_payoff", "american_binary_payoff", "european_binary_payoff", "european_forward_start_payoff", "realized_variance"],
+                               "a float strike / dt is compared with the prices unrounded (ties with the strike are decided at the precision of the prices)")
